@@ -137,6 +137,11 @@ OPERATORS = [
      "return the count although the iterator failed"),
     ("exc-leak-t", "break", ["C09"], TS, r"                ind = -1;  /\* the iterator failed: report its exception \*/\n", "",
      "return the count although the iterator failed"),
+    ("err-swallow", "break", ["C10"], I,
+     r"            if \(!PyErr_ExceptionMatches\(PyExc_IndexError\)\)\n                return -1;\n", "",
+     "a set-operation cursor clears every exception of a failed seek"),
+    ("err-ignored", "break", ["C02"], I, r"    if \(len < 0\)\n        return NULL;\n\n    if \(PyIndex_Check", "    if (PyIndex_Check",
+     "go on with a failed length"),
     ("eq-c-state-index", "equiv", ["C06"], B,
      r"        k = PyTuple_GET_ITEM\(items, l\);\n        l\+\+;\n        v = PyTuple_GET_ITEM\(items, l\);\n        l\+\+;\n",
      "        k = PyTuple_GET_ITEM(items, 2 * i);\n        v = PyTuple_GET_ITEM(items, 2 * i + 1);\n",
